@@ -1,1 +1,119 @@
-From Coq Require Import ZArith List.
+(* C17: the allocation discipline of a bucket's two parallel vectors (keys,
+   values) over an explicit block heap.  A block is an id; a successful
+   realloc RELEASES the old id and returns a fresh one (the pessimistic view:
+   realloc may always move), so a struct field that still holds the old id is
+   a visible dangling pointer.  The n-th allocation request fails.
+   Modelled: Bucket_grow (insert path, merge_output, set operations,
+   multiunion gather), the realloc pair of _bucket_setstate / fromBytes, and
+   the malloc pair of bucket_split. *)
+From Coq Require Import List Bool Arith.
+Import ListNotations.
+
+Record heap := mkH { live : list nat; nextid : nat; countdown : nat (* 0 = never fail; n+1 = the (n+1)-th request from now fails *) }.
+
+Definition fresh_block (h : heap) : nat * heap :=
+  (nextid h, mkH (nextid h :: live h) (S (nextid h)) (countdown h)).
+(* one allocation request: None = failure *)
+Definition request (h : heap) : option unit * heap :=
+  match countdown h with
+  | 1 => (None, mkH (live h) (nextid h) 0)
+  | O => (Some tt, h)
+  | S n => (Some tt, mkH (live h) (nextid h) n)
+  end.
+Definition release (b : nat) (h : heap) : heap :=
+  mkH (filter (fun x => negb (Nat.eqb x b)) (live h)) (nextid h) (countdown h).
+
+Definition malloc (h : heap) : option nat * heap :=
+  match request h with
+  | (None, h') => (None, h')
+  | (Some _, h') => let '(b, h'') := fresh_block h' in (Some b, h'')
+  end.
+(* realloc(p): on failure p stays valid; on success p is released *)
+Definition realloc (p : option nat) (h : heap) : option nat * heap :=
+  match request h with
+  | (None, h') => (None, h')
+  | (Some _, h') =>
+    let h1 := match p with Some b => release b h' | None => h' end in
+    let '(b, h2) := fresh_block h1 in (Some b, h2)
+  end.
+
+Record bucket := mkB { b_keys : option nat; b_vals : option nat; b_size : nat; b_len : nat }.
+
+Inductive res := ROk (b : bucket) (h : heap) | RMem (b : bucket) (h : heap).   (* RMem = MemoryError raised *)
+
+(* Bucket_grow(self, -1, noval) *)
+Definition bucket_grow (noval : bool) (b : bucket) (h : heap) : res :=
+  match b_size b with
+  | O =>
+    match malloc h with
+    | (None, h1) => RMem b h1
+    | (Some k, h1) =>
+      if noval then ROk (mkB (Some k) (b_vals b) 16 (b_len b)) h1
+      else match malloc h1 with
+           | (None, h2) => RMem (mkB None (b_vals b) 0 (b_len b)) (release k h2)   (* free(self->keys); self->keys = NULL *)
+           | (Some v, h2) => ROk (mkB (Some k) (Some v) 16 (b_len b)) h2
+           end
+    end
+  | S _ =>
+    match realloc (b_keys b) h with
+    | (None, h1) => RMem b h1
+    | (Some k, h1) =>
+      let b1 := mkB (Some k) (b_vals b) (b_size b) (b_len b) in    (* self->keys = keys, at once *)
+      if noval then ROk (mkB (Some k) (b_vals b) (2 * b_size b) (b_len b)) h1
+      else match realloc (b_vals b) h1 with
+           | (None, h2) => RMem b1 h2
+           | (Some v, h2) => ROk (mkB (Some k) (Some v) (2 * b_size b) (b_len b)) h2
+           end
+    end
+  end.
+
+(* the realloc pair of _bucket_setstate / fsBucket.fromBytes for a state of n entries *)
+Definition bucket_resize (n : nat) (b : bucket) (h : heap) : res :=
+  if (n <=? b_size b)%nat then ROk b h
+  else match realloc (b_keys b) h with
+       | (None, h1) => RMem b h1
+       | (Some k, h1) =>
+         let b1 := mkB (Some k) (b_vals b) (b_size b) (b_len b) in
+         match realloc (b_vals b) h1 with
+         | (None, h2) => RMem b1 h2
+         | (Some v, h2) => ROk (mkB (Some k) (Some v) n (b_len b)) h2
+         end
+       end.
+
+(* _bucket_set, insert of a new key: grow if full, then len++ *)
+Definition bucket_insert (noval : bool) (b : bucket) (h : heap) : res :=
+  if Nat.eqb (b_len b) (b_size b) then
+    match bucket_grow noval b h with
+    | ROk b' h' => ROk (mkB (b_keys b') (b_vals b') (b_size b') (S (b_len b'))) h'
+    | r => r
+    end
+  else ROk (mkB (b_keys b) (b_vals b) (b_size b) (S (b_len b))) h.
+
+(* no field refers to a released block; the two vectors are different blocks;
+   every live block is referenced (no leak) *)
+Definition owned (b : bucket) : list nat :=
+  (match b_keys b with Some k => [k] | None => [] end) ++ (match b_vals b with Some v => [v] | None => [] end).
+Definition sound (b : bucket) (h : heap) : Prop :=
+  NoDup (owned b) /\ (forall x, In x (owned b) <-> In x (live h)) /\ b_len b <= b_size b /\
+  (forall x, In x (live h) -> x < nextid h) /\
+  (b_size b = 0 <-> b_keys b = None).
+
+(* number of allocation requests for n successive inserts into an empty bucket *)
+Fixpoint inserts (noval : bool) (n : nat) (b : bucket) (h : heap) : res :=
+  match n with
+  | O => ROk b h
+  | S m => match inserts noval m b h with
+           | ROk b' h' => bucket_insert noval b' h'
+           | r => r
+           end
+  end.
+Definition empty_bucket : bucket := mkB None None 0 0.
+Definition heap0 (fail_at : nat) : heap := mkH [] 0 fail_at.
+(* requests made = fresh ids handed out when nothing fails *)
+Definition requests_for (noval : bool) (n : nat) : nat :=
+  match inserts noval n empty_bucket (heap0 0) with ROk _ h => nextid h | RMem _ h => nextid h end.
+
+(* wire: observed number of allocations while inserting n keys into an empty Bucket / Set *)
+Inductive wacase := AC (noval : bool) (n : nat) (allocs : nat).
+Definition acase_ok (c : wacase) : bool :=
+  match c with AC nv n a => Nat.eqb (requests_for nv n) a end.
